@@ -12,10 +12,27 @@ from vmc import arith, refmodel
 ID = 'C09'
 
 
+def _host(h, k):
+    if h.startswith('F') and h[1:].isdigit():
+        from vmc.props.c07 import folded_host
+
+        return folded_host(int(h[1:]), k)
+    if h == 'SATW':
+        return arith.saturated_host(k, wide=True)
+    if h == 'DEC':
+        return arith.decoy_host(k)
+    return arith.host(h, k)
+
+
 def _hosts(k, which=('H0', 'H1')):
     for h in which:
-        c, ops = arith.host(h, k)
+        c, ops = _host(h, k)
         yield h, c, ops
+    if which == ('H0', 'H1') and 2 <= k <= 4:
+        # hosts that already hold the gates a generator is about to create / n-ary decoys containing their operands
+        for h in ('SATW', 'DEC'):
+            c, ops = _host(h, k)
+            yield h, c, ops
 
 
 def _run(acc, fn_name, case, feats, c, call):
@@ -526,6 +543,14 @@ def plan(tier):
         t.append({'kind': 'equal', 'n': n})
     for w in (12, 16, 31, 32, 33, 48, 49, 50, 53, 63, 64, 65, 100) if q else (12, 16, 24, 31, 32, 33, 47, 48, 49, 50, 52, 53, 54, 63, 64, 65, 100, 127, 128, 129, 200):
         t.append({'kind': 'equalwide', 'n': w})
+    for n in range(1, (16 if q else 18) + 1):
+        t.append({'kind': 'gen', 'which': 'sqrt', 'n': n})
+    for n in range(1, (7 if q else 8) + 1):
+        t.append({'kind': 'gen', 'which': 'div_mod', 'n': n})
+    for w in (257, 300) if q else (255, 256, 257, 258, 300, 513):
+        t.append({'kind': 'subwide', 'w': w})
+    for n in (40,) if q else (40, 257):
+        t.append({'kind': 'divwide', 'n': n})
     for inp in range(1, (7 if q else 9)):
         t.append({'kind': 'plus', 'inp': inp, 'outmax': 8 if q else 10})
     return t
@@ -533,7 +558,7 @@ def plan(tier):
 
 def describe(tier):
     return {
-        'rule': 'sub: generate/add_sub_two_numbers and add_subtract_with_compare for all width pairs x endianness x hosts (H0 inputs, H1 '
+        'rule': 'gen: generate_sqrt n<=16 (18) and generate_div_mod n<=7 (8), ALL operand values; subwide/divwide: subtraction at widths 257/300 (thorough 255..513) equal and off by one, div_mod at 40 (257) bits, operands driven by a 12-input folded host, all 4096 host assignments; hosts SATW/DEC (every two-operand gate over the operand bits already present / n-ary decoys only) for <= 4 operand bits; sub: generate/add_sub_two_numbers and add_subtract_with_compare for all width pairs x endianness x hosts (H0 inputs, H1 '
         'non-input operands, and the live input list of the host as operand a); div_mod (incl. b=0), sqrt (odd and even n), equality gadget (every constant 0..2^(n+1); widths 12..100(200) over a stated alphabet: 10 constants around 0 / 2^(w-1) / 2^w x operand values {constant, every single-bit flip of it, 0, all ones}), plus-one '
         '(inp x out x endianness x add_outputs x result_labels given/omitted x H0/H1/H2), if-then-else and pairwise gadgets on a '
         'host with existing gates/outputs/blocks over every operand tuple incl. internal gates and repeats; all operand values; every generate_* is called, its result edited, and called again (fresh circuit each time). '
@@ -551,6 +576,69 @@ def probe():
 
     boot.uuid_counter.reset()
     return refmodel.abstract(generate_sub_two_numbers(2, 2)).to_json()
+
+
+def check_generate_wrappers(acc, which, n, be):
+    """generate_sqrt / generate_div_mod: the stand-alone circuits, all operand values (their operand bits are
+    the circuit's inputs in declaration order)."""
+    import cirbo.synthesis.generation.arithmetics as A
+
+    case = {'fn': 'generate_' + which, 'n': n, 'big_endian': be}
+    acc.states += 1
+    acc.traces += 1
+    acc.transitions += 1
+    try:
+        c = A.generate_sqrt(n, big_endian=be) if which == 'sqrt' else A.generate_div_mod(n, big_endian=be)
+    except Exception as e:  # noqa: BLE001
+        acc.violation(f'generate_{which}/raises-{type(e).__name__}', case, repr(e)[:200])
+        return
+    net = refmodel.abstract(c)
+    k = n if which == 'sqrt' else 2 * n
+    if len(net.inputs) != k or refmodel.wellformed(c, deep=False):
+        acc.violation(f'generate_{which}/shape', case, f'{len(net.inputs)} inputs')
+        return
+    tabs = net.tables()
+    rows = 1 << k
+    if which == 'sqrt':
+        if len(net.outputs) != (n + 1) // 2:
+            acc.violation('generate_sqrt/result-width', case, f'{len(net.outputs)}')
+            return
+        va = arith.decode_rows(tabs, net.inputs, rows, be)
+        got = arith.decode_rows(tabs, net.outputs, rows, be)
+        for j in range(rows):
+            if got[j] != math.isqrt(va[j]):
+                acc.violation('generate_sqrt/wrong-root', case, f'a={va[j]} got {got[j]}')
+                return
+    else:
+        if len(net.outputs) != 2 * n:
+            acc.violation('generate_div_mod/result-width', case, f'{len(net.outputs)}')
+            return
+        va = arith.decode_rows(tabs, net.inputs[:n], rows, be)
+        vb = arith.decode_rows(tabs, net.inputs[n:], rows, be)
+        gd = arith.decode_rows(tabs, net.outputs[:n], rows, be)
+        gm = arith.decode_rows(tabs, net.outputs[n:], rows, be)
+        for j in range(rows):
+            wd, wm = (va[j] // vb[j], va[j] % vb[j]) if vb[j] else (0, 0)
+            if (gd[j], gm[j]) != (wd, wm):
+                acc.violation('generate_div_mod/wrong-result', case, f'a={va[j]} b={vb[j]} got ({gd[j]},{gm[j]})', {'zero_divisor': vb[j] == 0})
+                return
+    acc.outcome('c09', ('generate_' + which, n, be))
+
+
+def check_sub_wide(acc, w, be, compare, q=12):
+    """Equal widths beyond 256 (and unequal ones around it): operands driven by a q-input folded host, all 2^q
+    host assignments."""
+    from vmc.props.c07 import folded_host
+
+    for na, nb in ((w, w), (w, w - 1), (w - 1, w)):
+        c, ops = folded_host(q, na + nb)
+        check_sub(acc, na, nb, be, f'F{q}', space_variant(c), ops, compare)
+
+
+def space_variant(c):
+    from vmc import space
+
+    return space.variant(c)
 
 
 def run_task(task, acc):
@@ -589,6 +677,19 @@ def run_task(task, acc):
         acc.sample({'fn': 'add_equal', 'n': n, 'num': 1 << n, 'host': 'H0'})
     elif k == 'equalwide':
         check_equal_wide(acc, task['n'])
+    elif k == 'gen':
+        for be in (False, True):
+            check_generate_wrappers(acc, task['which'], task['n'], be)
+    elif k == 'subwide':
+        for be in (False, True):
+            for compare in (False, True):
+                check_sub_wide(acc, task['w'], be, compare)
+    elif k == 'divwide':
+        from vmc.props.c07 import folded_host
+
+        for be in (False, True):
+            c, ops = folded_host(12, 2 * task['n'])
+            check_div_mod(acc, task['n'], be, 'F12', space_variant(c), ops)
     elif k == 'plus':
         inp = task['inp']
         for out in range(1, task['outmax'] + 1):
@@ -619,7 +720,7 @@ def replay(case, acc):
         if ht.startswith('H2:'):
             c2, _ = arith.host2(3)
             return ht, c2, ht[3:].split(',')
-        c, ops = arith.host(ht, k)
+        c, ops = _host(ht, k)
         return ht, c, ops
 
     if fn in ('add_sub_two_numbers', 'add_subtract_with_compare'):
